@@ -197,9 +197,10 @@ pub fn generate(profile: &str, seed: u64, index: u64) -> NScenario {
         next += 16;
         if rng.chance(1, 6) {
             next = base + PS + rng.below(PS / 16) * 16;
-            while funcs.iter().any(|(a, _)| (*a as i64 - next as i64).abs() < 16) {
-                next += 16;
-            }
+        }
+        // slots never overlap
+        while funcs.iter().any(|(a, _)| (*a as i64 - next as i64).abs() < 16) {
+            next += 16;
         }
     }
     let with_real = matches!(profile, "C02" | "C03" | "C12" | "C17") && rng.chance(1, 2) || (profile == "C01" && rng.chance(1, 5));
